@@ -833,6 +833,50 @@ pub fn generate(k: &Knobs, seed: u64) -> Scenario {
                         ops.push(Op { kind: OpKind::Resize(r), pool: pick_pool(&mut rng, true, false), backend: be });
                     }
                 }
+                7 => {
+                    // mapper / component conversion through the dynamic containers
+                    let plain = |i: &Img| Img { kind: Kind::DynSlice, pad: [0; 4], pad2: [0; 4], tail: 0, place: 1, stride_extra: 0, yield_rows: false, ..i.clone() };
+                    let dyn_pair = |rng: &mut Rng| loop {
+                        let (s, d) = (*rng.pick(&SRC_DYN), *rng.pick(&DST_DYN));
+                        if pair_ok(s, d) {
+                            break (s, d);
+                        }
+                    };
+                    if rng.chance(1, 2) {
+                        let mut m0 = gen_map(&mut rng, cfg.max_dim, &mut classes);
+                        m0.dst = plain(&m0.dst);
+                        if let Some(sx) = m0.src.as_mut() {
+                            *sx = Img { w: m0.dst.w, h: m0.dst.h, ..plain(sx) };
+                        }
+                        ops.push(Op { kind: OpKind::Map(m0.clone()), pool: vec![1], backend: be });
+                        for _ in 0..n_alt {
+                            let (sk, dk) = dyn_pair(&mut rng);
+                            let mut d = mk_img(&mut rng, m0.dst.w, m0.dst.h, dk, m0.dst_pt, true, false);
+                            d.content = m0.dst.content;
+                            d.content_seed = m0.dst.content_seed;
+                            let sx = m0.src.as_ref().map(|s0| {
+                                let mut sx = mk_img(&mut rng, s0.w, s0.h, sk, m0.pt, false, false);
+                                sx.content = s0.content;
+                                sx.content_seed = s0.content_seed;
+                                sx
+                            });
+                            ops.push(Op { kind: OpKind::Map(MapOp { src: sx, dst: d, ..m0.clone() }), pool: pick_pool(&mut rng, true, false), backend: be });
+                        }
+                    } else {
+                        let mut c0 = gen_convert(&mut rng, cfg.max_dim, &mut classes);
+                        c0.dst = Img { w: c0.src.w, h: c0.src.h, ..plain(&c0.dst) };
+                        c0.src = plain(&c0.src);
+                        ops.push(Op { kind: OpKind::Convert(c0.clone()), pool: vec![1], backend: be });
+                        for _ in 0..n_alt {
+                            let (sk, dk) = dyn_pair(&mut rng);
+                            let mut sx = mk_img(&mut rng, c0.src.w, c0.src.h, sk, c0.pt, false, false);
+                            sx.content = c0.src.content;
+                            sx.content_seed = c0.src.content_seed;
+                            let d = mk_img(&mut rng, c0.dst.w, c0.dst.h, dk, c0.dst_pt, true, false);
+                            ops.push(Op { kind: OpKind::Convert(ConvertOp { src: sx, dst: d, ..c0.clone() }), pool: pick_pool(&mut rng, true, false), backend: be });
+                        }
+                    }
+                }
                 _ => {
                     let mut a0 = gen_alpha(&mut rng, cfg.max_dim, false, &mut classes, true);
                     a0.dst = Img { kind: Kind::Slice, pad: [0; 4], pad2: [0; 4], tail: 0, place: 1, stride_extra: 0, yield_rows: false, ..a0.dst };
